@@ -124,6 +124,7 @@ def gen_c10(seed, ptr):
     undefined_field = set()
     hard_error = False                          # undefined name in parameter / return / extern value
     texts = collections.defaultdict(list)
+    extra_uses = collections.defaultdict(list)
     for i in range(n):
         if kind[i] == "enum":
             k = rng.random()
@@ -147,7 +148,12 @@ def gen_c10(seed, ptr):
             else:
                 j = rng.randrange(i) if i > 0 else None
             if rng.random() < p_undef:
-                t = rng.choice(["Missing%d_%d" % (i, f), "[Missing%d_%d; 2]" % (i, f)])
+                t = rng.choice(["Missing%d_%d" % (i, f), "[Missing%d_%d; 2]" % (i, f), "*const Missing%d_%d" % (i, f),
+                                "*mut MissingU%d_%d" % (i, f)])
+                if "MissingU" in t:
+                    # the undefined name is even imported by name (`use g::MissingU..;`): an import of something that does
+                    # not exist defines nothing -- also behind a pointer the name stays undefined
+                    extra_uses[owner[i]].append("use %s::MissingU%d_%d;" % ("::".join(mods[rng.randrange(nmods)]), i, f))
                 undefined_field.add(i)
                 fields.append("    pub f%d: %s" % (f, t))
                 continue
@@ -199,7 +205,7 @@ def gen_c10(seed, ptr):
     for mi, m in enumerate(mods):
         items = texts[mi]
         rng.shuffle(items)
-        uses = "".join("use %s;\n" % "::".join(o) for oi, o in enumerate(mods) if oi != mi)
+        uses = "".join("use %s;\n" % "::".join(o) for oi, o in enumerate(mods) if oi != mi) + "".join(u + "\n" for u in extra_uses[mi])
         files["/".join(m) + ".pyxis"] = uses + "\n".join(items) + "\n"
     exp = dict(types={}, enums={}, vftables={}, funcs={}, externs={}, miss=None,
                c10=dict(stuck=stuck, hard_error=hard_error, n=n,
